@@ -682,7 +682,12 @@ def run_prog(tier, seed, spec, col):
                 captured.append({"ploidy": int(self.kw["ploidy"]), "haplotypes": np.array(self.kw["haplotypes"], copy=True), "inbreeding": float(self.kw["inbreeding"]),
                                  "frequencies": None if self.kw.get("frequencies") is None else np.array(self.kw["frequencies"], dtype=float, copy=True),
                                  "reads": np.array(reads, copy=True), "counts": None if read_counts is None else np.array(read_counts, copy=True)})
-                return self.real.fit(reads=reads, read_counts=read_counts, **kw2)
+                tr = self.real.fit(reads=reads, read_counts=read_counts, **kw2)
+                try:
+                    captured[-1]["visited"] = sorted({int(a) for a in np.unique(np.asarray(tr.genotypes)) if a >= 0})
+                except Exception:  # noqa: BLE001 - trace layout changed: the visited-state monitor is then not applicable
+                    captured[-1]["visited"] = None
+                return tr
 
         per_locus = []
         try:
@@ -744,6 +749,17 @@ def run_prog(tier, seed, spec, col):
                     stop = True
                     break
                 fr = c["frequencies"]
+                # the sampler must not spend steps on genotypes of posterior probability zero: a haplotype whose prior frequency
+                # in the vector GIVEN TO THE SAMPLER is 0 may not occur in any sampled genotype (a greedy start that holds such an
+                # allele is never left when inbreeding > 0, because the conditional counts existing copies)
+                if fr is not None and c.get("visited") is not None:
+                    col.count("prog_sampler_traces_inspected")
+                    dead = [a for a in c["visited"] if a < len(fr) and fr[a] <= 0]
+                    if dead:
+                        col.violation("sampler-visits-state-of-zero-posterior", "%s: call's sampler was given prior frequencies %s and its trace holds allele(s) %s of frequency 0 (inbreeding %g): the sampled distribution puts mass on genotypes whose exact posterior is 0"
+                                      % (where, np.round(fr, 4).tolist(), dead, c["inbreeding"]), case)
+                        stop = True
+                        break
                 if fr is not None and (abs(fr.sum() - 1.0) > 1e-9 or np.any(fr <= 0)):
                     col.count("prog_targets_unnormalised_frequencies_skipped")
                     continue
